@@ -91,8 +91,8 @@ def run(tier, seed):
         blocks.append(('seed x <=2 layout options', set(), 0, lay2))
         blocks.append(('<=1 optional-gap toggle x one-per-filter sets', {'ws0'}, 1, options.SINGLE_FILTER[:5]))
     else:
-        blocks.append(('<=2 of {comment-in-gap, literal spelling, uniform style} x <=1 layout option (pairs with a derivation '
-                       'alternative are left to the <=1 blocks)', {'cm', 'lit', 'style', 'wstyle'}, 2, lay1))
+        blocks.append(('<=2 comments in gaps x one-per-filter layout sets', {'cm'}, 2, options.SINGLE_FILTER[:5]))
+        blocks.append(('<=2 of {literal spelling, uniform style} x <=1 layout option', {'lit', 'style', 'wstyle'}, 2, lay1))
         blocks.append(('<=1 of {derivation, comment-in-gap, literal spelling, uniform style} x <=1 layout option',
                        {'der', 'cm', 'lit', 'style', 'wstyle'}, 1, lay1))
         blocks.append(('<=1 of {derivation, comment} x <=2 layout options', {'der', 'cm', 'style', 'lit'}, 1, lay2))
